@@ -805,46 +805,76 @@ async fn run_case(out: &mut Out, ctx: &Ctx, case: &Case) {
 }
 
 /// Timed streams: per-shard clocks and key expiry (model: `Shards.Clock.execNT`).
-/// The fast / pooled messages carried no virtual time before the fix "fast/pooled/batch shard
-/// messages carry the virtual time": they judged expiry against the clock their shard saw at
-/// its last GENERIC command, which on N shards is refreshed only by commands for that shard.
+/// Every `ShardMessage` kind must carry the virtual time and the shard must adopt it before
+/// executing (fix ef50533 for the fast / pooled / batch kinds); a kind that does not judges
+/// expiry against the clock its shard saw at its last time-carrying message, which on N shards
+/// is refreshed only by traffic for that shard.
 #[derive(Clone, Debug)]
 struct TOp {
     now: u64,
     name: &'static str,
-    key: Vec<u8>,
-    val: Vec<u8>,
-    ms: i64,
+    keys: Vec<Vec<u8>>,
+    vals: Vec<Vec<u8>>,
+    num: i64,
 }
 
 impl TOp {
     fn line(&self) -> String {
+        let k0 = || hex(&self.keys[0]);
         match self.name {
-            "SET" | "FSET" | "PSET" => format!("T {} {} {} {}", self.now, self.name, hex(&self.key), hex(&self.val)),
-            "SETPX" => format!("T {} SETPX {} {} {}", self.now, hex(&self.key), hex(&self.val), self.ms),
+            "SET" | "FSET" | "PSET" => format!("T {} {} {} {}", self.now, self.name, k0(), hex(&self.vals[0])),
+            "SETPX" | "SETEX" => format!("T {} {} {} {} {}", self.now, self.name, k0(), hex(&self.vals[0]), self.num),
             "DBSIZE" => format!("T {} DBSIZE", self.now),
-            _ => format!("T {} {} {}", self.now, self.name, hex(&self.key)),
+            "BGET" | "MGET" => {
+                let mut l = format!("T {} {} {}", self.now, self.name, self.keys.len());
+                for k in &self.keys {
+                    l.push_str(&format!(" {}", hex(k)));
+                }
+                l
+            }
+            "BSET" | "MSET" => {
+                let mut l = format!("T {} {} {}", self.now, self.name, self.keys.len());
+                for (k, v) in self.keys.iter().zip(&self.vals) {
+                    l.push_str(&format!(" {} {}", hex(k), hex(v)));
+                }
+                l
+            }
+            _ => format!("T {} {} {}", self.now, self.name, k0()),
         }
+    }
+    fn is_read(&self) -> bool {
+        matches!(self.name, "GET" | "EXISTS" | "FGET" | "PGET" | "BGET" | "MGET" | "DBSIZE")
     }
 }
 
 async fn apply_timed(st: &State, op: &TOp) -> String {
-    match op.name {
-        "SET" => r1(&st.execute(&Command::set(s(&op.key), sds(&op.val))).await),
-        "SETPX" => {
-            let mut c = Command::set(s(&op.key), sds(&op.val));
-            if let Command::Set { ref mut px, .. } = c {
-                *px = Some(op.ms);
-            }
-            r1(&st.execute(&c).await)
+    let k0 = || s(&op.keys[0]);
+    let set_with = |ex: Option<i64>, px: Option<i64>| {
+        let mut c = Command::set(s(&op.keys[0]), sds(&op.vals[0]));
+        if let Command::Set { ex: ref mut e, px: ref mut p, .. } = c {
+            *e = ex;
+            *p = px;
         }
-        "GET" => r1(&st.execute(&Command::Get(s(&op.key))).await),
-        "EXISTS" => r1(&st.execute(&Command::Exists(vec![s(&op.key)])).await),
+        c
+    };
+    match op.name {
+        "SET" => r1(&st.execute(&set_with(None, None)).await),
+        "SETPX" => r1(&st.execute(&set_with(None, Some(op.num))).await),
+        "SETEX" => r1(&st.execute(&set_with(Some(op.num), None)).await),
+        "GET" => r1(&st.execute(&Command::Get(k0())).await),
+        "EXISTS" => r1(&st.execute(&Command::Exists(vec![k0()])).await),
         "DBSIZE" => r1(&st.execute(&Command::DbSize).await),
-        "FGET" => r1(&st.fast_get(b(&op.key)).await),
-        "PGET" => r1(&st.pooled_fast_get(b(&op.key)).await),
-        "FSET" => r1(&st.fast_set(b(&op.key), b(&op.val)).await),
-        "PSET" => r1(&st.pooled_fast_set(b(&op.key), b(&op.val)).await),
+        "FGET" => r1(&st.fast_get(b(&op.keys[0])).await),
+        "PGET" => r1(&st.pooled_fast_get(b(&op.keys[0])).await),
+        "FSET" => r1(&st.fast_set(b(&op.keys[0]), b(&op.vals[0])).await),
+        "PSET" => r1(&st.pooled_fast_set(b(&op.keys[0]), b(&op.vals[0])).await),
+        "BGET" => many(&st.fast_batch_get_pipeline(op.keys.iter().map(|k| b(k)).collect()).await),
+        "BSET" => many(&st.fast_batch_set_pipeline(op.keys.iter().zip(&op.vals).map(|(k, v)| (b(k), b(v))).collect()).await),
+        "MGET" => match st.execute(&Command::MGet(op.keys.iter().map(|k| s(k)).collect())).await {
+            RespValue::Array(Some(vs)) => many(&vs),
+            o => r1(&o),
+        },
+        "MSET" => r1(&st.execute(&Command::MSet(op.keys.iter().zip(&op.vals).map(|(k, v)| (s(k), sds(v))).collect())).await),
         x => panic!("timed op {}", x),
     }
 }
@@ -863,8 +893,11 @@ async fn run_timed_on(n: usize, ops: &[TOp]) -> Vec<String> {
     out
 }
 
-fn top(now: u64, name: &'static str, key: &[u8], val: &[u8], ms: i64) -> TOp {
-    TOp { now, name, key: key.to_vec(), val: val.to_vec(), ms }
+fn top(now: u64, name: &'static str, key: &[u8], val: &[u8], num: i64) -> TOp {
+    TOp { now, name, keys: vec![key.to_vec()], vals: vec![val.to_vec()], num }
+}
+fn tmulti(now: u64, name: &'static str, keys: &[Vec<u8>], val: &[u8]) -> TOp {
+    TOp { now, name, keys: keys.to_vec(), vals: keys.iter().map(|_| val.to_vec()).collect(), num: 0 }
 }
 
 /// keys whose two routing hashes agree (so that a difference is not the routing defect)
@@ -872,22 +905,82 @@ fn timed_keys(ctx: &Ctx, n: usize) -> Vec<Vec<u8>> {
     pool().into_iter().filter(|k| ctx.gen(k, n) == h_bytes(k, n)).collect()
 }
 
-/// the witness: SET k v PX 100; +200 ms; GET k2 (another shard); fast_get k; pooled_fast_get k
-fn timed_corpus(ctx: &Ctx) -> (usize, Vec<TOp>) {
+const READ_PATHS: [&str; 7] = ["GET", "EXISTS", "FGET", "PGET", "BGET", "MGET", "DBSIZE"];
+
+/// The pattern behind every stale-clock defect, for ONE read path: a key gets a deadline; the
+/// clock advances to just before / exactly at / just past / far past it; in between there is
+/// traffic for OTHER shards only (or none); then the key is read through the path.
+#[allow(clippy::too_many_arguments)]
+fn ttl_pattern(ctx: &Ctx, rng: &mut Rng, n: usize, path: &'static str, ttl_state: &'static str, between: &'static str, setter: &'static str) -> Vec<TOp> {
+    let ks = timed_keys(ctx, n);
+    let k = ks[rng.below(ks.len() as u64) as usize].clone();
+    let others: Vec<Vec<u8>> = ks.iter().filter(|x| h_bytes(x, n) != h_bytes(&k, n)).cloned().collect();
+    let t0 = rng.below(50);
+    let (set, ttl_ms) = match setter {
+        "SETEX" => (top(t0, "SETEX", &k, b"v", 1), 1000u64),
+        _ => {
+            let ms = *rng.pick(&[1u64, 100, 250]);
+            (top(t0, "SETPX", &k, b"v", ms as i64), ms)
+        }
+    };
+    let deadline = t0 + ttl_ms;
+    let t1 = match ttl_state {
+        "before" => deadline - 1,
+        "at" => deadline,
+        "after" => deadline + 1,
+        _ => deadline + 400 + rng.below(5000),
+    };
+    let mut ops = vec![set];
+    if between == "other-shards" && !others.is_empty() {
+        for _ in 0..rng.range(1, 3) {
+            let o = others[rng.below(others.len() as u64) as usize].clone();
+            let name: &'static str = *rng.pick(&["GET", "SET", "FGET", "FSET", "PGET", "BGET", "MGET", "EXISTS"]);
+            ops.push(match name {
+                "SET" | "FSET" => top(t1, name, &o, b"o", 0),
+                "BGET" | "MGET" => tmulti(t1, name, &[o], b""),
+                _ => top(t1, name, &o, b"", 0),
+            });
+        }
+    }
+    let read = |name: &'static str| match name {
+        "BGET" | "MGET" => {
+            // the key alone, or together with keys of other shards
+            let mut keys = vec![k.clone()];
+            if !others.is_empty() && name == path {
+                keys.push(others[0].clone());
+            }
+            tmulti(t1, name, &keys, b"")
+        }
+        "DBSIZE" => TOp { now: t1, name: "DBSIZE", keys: vec![], vals: vec![], num: 0 },
+        _ => top(t1, name, &k, b"", 0),
+    };
+    ops.push(read(path));
+    // a second look through the generic path, and the key count
+    ops.push(read("GET"));
+    ops.push(read("DBSIZE"));
+    ops
+}
+
+/// the seed C03-batch-get-skips-set-time, literally, and its siblings for every read path
+fn timed_corpus(ctx: &Ctx) -> Vec<(usize, Vec<TOp>, String)> {
     let n = 4;
     let ks = timed_keys(ctx, n);
     let k = ks[0].clone();
     let k2 = ks.iter().find(|x| h_bytes(x, n) != h_bytes(&k, n)).unwrap().clone();
-    (
-        n,
-        vec![
-            top(0, "SETPX", &k, b"v", 100),
-            top(200, "GET", &k2, b"", 0),
-            top(200, "FGET", &k, b"", 0),
-            top(200, "PGET", &k, b"", 0),
-            top(200, "DBSIZE", b"", b"", 0),
-        ],
-    )
+    let mut cs = Vec::new();
+    for path in READ_PATHS {
+        let read = match path {
+            "BGET" | "MGET" => tmulti(500, path, &[k.clone()], b""),
+            "DBSIZE" => TOp { now: 500, name: "DBSIZE", keys: vec![], vals: vec![], num: 0 },
+            _ => top(500, path, &k, b"", 0),
+        };
+        cs.push((
+            n,
+            vec![top(0, "SETPX", &k, b"v", 100), top(500, "GET", &k2, b"", 0), read, TOp { now: 500, name: "DBSIZE", keys: vec![], vals: vec![], num: 0 }],
+            format!("path={}:ttl=far:between=other-shards", path),
+        ));
+    }
+    cs
 }
 
 fn timed_random(ctx: &Ctx, rng: &mut Rng) -> (usize, Vec<TOp>) {
@@ -899,44 +992,68 @@ fn timed_random(ctx: &Ctx, rng: &mut Rng) -> (usize, Vec<TOp>) {
     let mut ops = Vec::new();
     for _ in 0..rng.range(8, 30) {
         if rng.chance(1, 2) {
-            now += *rng.pick(&[1u64, 20, 50, 99, 100, 101, 150, 300]);
+            now += *rng.pick(&[1u64, 20, 50, 99, 100, 101, 150, 300, 1000]);
         }
         let k = keys[rng.below(keys.len() as u64) as usize].clone();
         let v = format!("v{}", rng.below(9)).into_bytes();
-        let op = match rng.below(12) {
+        let some: Vec<Vec<u8>> = (0..rng.range(1, 3)).map(|_| keys[rng.below(keys.len() as u64) as usize].clone()).collect();
+        let op = match rng.below(17) {
             0 | 1 | 2 => top(now, "SETPX", &k, &v, *rng.pick(&[1i64, 50, 100, 101, 200, 400])),
             3 => top(now, "SET", &k, &v, 0),
-            4 | 5 => top(now, "GET", &k, b"", 0),
+            4 => top(now, "SETEX", &k, &v, 1),
+            5 => top(now, "GET", &k, b"", 0),
             6 => top(now, "EXISTS", &k, b"", 0),
-            7 => top(now, "DBSIZE", b"", b"", 0),
+            7 => TOp { now, name: "DBSIZE", keys: vec![], vals: vec![], num: 0 },
             8 => top(now, "FGET", &k, b"", 0),
             9 => top(now, "PGET", &k, b"", 0),
             10 => top(now, "FSET", &k, &v, 0),
-            _ => top(now, "PSET", &k, &v, 0),
+            11 => top(now, "PSET", &k, &v, 0),
+            12 | 13 => tmulti(now, "BGET", &some, b""),
+            14 => tmulti(now, "MGET", &some, b""),
+            15 => tmulti(now, "BSET", &some, &v),
+            _ => tmulti(now, "MSET", &some, &v),
         };
         ops.push(op);
     }
     (n, ops)
 }
 
-/// do the fast messages of the tree under test carry the virtual time?  (observed)
-async fn detect_carries(ctx: &Ctx) -> bool {
-    let (n, ops) = timed_corpus(ctx);
-    let r = run_timed_on(n, &ops).await;
-    r[2] == "nil"
+/// which message kinds of the tree under test carry the virtual time?  Observed per READ kind
+/// (the seed's sequence); for the write kinds (fast / pooled / batch SET) it is unobservable as
+/// long as every read kind adopts the time (`set_direct` does not look at the clock), so they
+/// are reported as carrying.  Order: generic fastGet fastSet pooledGet pooledSet batchGet batchSet.
+async fn detect_carries(ctx: &Ctx) -> String {
+    let mut bits = ['1'; 7];
+    for (n, ops, label) in timed_corpus(ctx) {
+        let r = run_timed_on(n, &ops).await;
+        let carries = r[2] == "nil" || r[2] == "m:[nil]" || r[2] == "i:0";
+        let idx = if label.contains("path=FGET") {
+            1
+        } else if label.contains("path=PGET") {
+            3
+        } else if label.contains("path=BGET") {
+            5
+        } else {
+            0
+        };
+        if !carries {
+            bits[idx] = '0';
+        }
+    }
+    bits.iter().collect()
 }
 
-async fn run_timed(out: &mut Out, ctx: &Ctx, carries: bool, n: usize, ops: &[TOp]) {
+async fn run_timed(out: &mut Out, carries: &str, n: usize, ops: &[TOp], label: &str) {
     let a1 = run_timed_on(1, ops).await;
     let an = run_timed_on(n, ops).await;
     let mut u: BTreeSet<Vec<u8>> = BTreeSet::new();
     for o in ops {
-        if o.name != "DBSIZE" {
-            u.insert(o.key.clone());
+        for k in &o.keys {
+            u.insert(k.clone());
         }
     }
     for (shards, ans) in [(1usize, &a1), (n, &an)] {
-        let mut l = format!("TNEW {} {} {}", shards, carries as u8, u.len());
+        let mut l = format!("TNEW {} {} {}", shards, carries, u.len());
         for k in &u {
             l.push_str(&format!(" {} {} {}", hex(k), h_bytes(k, shards), h_bytes(k, shards)));
         }
@@ -947,20 +1064,23 @@ async fn run_timed(out: &mut Out, ctx: &Ctx, carries: bool, n: usize, ops: &[TOp
         }
     }
     out.count("class:timed");
+    if !label.is_empty() {
+        out.count(&format!("timed:{}", label));
+    }
     let lines: Vec<String> = ops.iter().map(|o| o.line()).collect();
     if let Some(i) = (0..ops.len()).find(|&i| a1[i] != an[i]) {
-        let fast_involved = ops.iter().any(|o| matches!(o.name, "FGET" | "PGET" | "FSET" | "PSET"));
-        let sig = if !carries && fast_involved { "C03:fast-path-stale-clock".to_string() } else { format!("C03:unexplained:timed:{}", ops[i].name) };
+        let kinds = ["generic", "fast_get", "fast_set", "pooled_fast_get", "pooled_fast_set", "fast_batch_get", "fast_batch_set"];
+        let stale: Vec<&str> = carries.chars().zip(kinds.iter()).filter(|(c, _)| *c == '0').map(|(_, k)| *k).collect();
+        let sig = if stale.is_empty() { format!("C03:unexplained:timed:{}", ops[i].name) } else { format!("C03:stale-clock:{}", stale.join("+")) };
         out.violation(
             &sig,
             &format!("{} shards answer `{}` with {} where one shard answers {}", n, lines[i], an[i], a1[i]),
-            json!({"shards": n, "ops": lines, "first_difference_at": i, "one_shard": a1, "n_shards": an}),
+            json!({"shards": n, "ops": lines, "first_difference_at": i, "one_shard": a1, "n_shards": an, "message_kinds_not_adopting_the_time": stale}),
         );
     }
-    let expiring = ops.iter().any(|o| o.name == "SETPX") && ops.last().map(|o| o.now > 0).unwrap_or(false);
+    let expiring = ops.iter().any(|o| matches!(o.name, "SETPX" | "SETEX")) && ops.last().map(|o| o.now > 0).unwrap_or(false) && ops.iter().any(|o| o.is_read());
     out.case(&format!("timed|{}|{}", n, lines.join(";")), expiring);
     out.sample(json!({"shards": n, "class": "timed", "ops": lines.iter().take(12).collect::<Vec<_>>()}));
-    let _ = ctx;
 }
 
 pub fn run(a: &Args) {
@@ -974,18 +1094,43 @@ pub fn run(a: &Args) {
             run_case(&mut out, &ctx, &c).await;
         }
         let carries = detect_carries(&ctx).await;
-        out.extra.insert("fast_messages_carry_virtual_time".into(), json!(carries));
-        let (tn, tops) = timed_corpus(&ctx);
-        run_timed(&mut out, &ctx, carries, tn, &tops).await;
+        out.extra.insert("message_kinds_adopting_the_virtual_time(generic,fast_get,fast_set,pooled_get,pooled_set,batch_get,batch_set)".into(), json!(carries));
+        for (tn, tops, label) in timed_corpus(&ctx) {
+            run_timed(&mut out, &carries, tn, &tops, &label).await;
+        }
+        // every read path × every ttl state × traffic in between, once each, on every run
+        {
+            let mut r = Rng::new(a.seed ^ 0x77);
+            for path in READ_PATHS {
+                for ttl in ["before", "at", "after", "far"] {
+                    for between in ["none", "other-shards"] {
+                        let setter = if r.chance(1, 4) { "SETEX" } else { "SETPX" };
+                        let n = *r.pick(&[2usize, 4, 8]);
+                        let ops = ttl_pattern(&ctx, &mut r, n, path, ttl, between, setter);
+                        run_timed(&mut out, &carries, n, &ops, &format!("path={}:ttl={}:between={}", path, ttl, between)).await;
+                    }
+                }
+            }
+        }
         for _ in 0..a.n {
             let mut r = rng.fork();
             let c = if r.chance(1, 7) { keys_case(&mut r, false) } else { random_case(&ctx, &mut r) };
             run_case(&mut out, &ctx, &c).await;
             if r.chance(1, 6) {
-                let (tn, tops) = timed_random(&ctx, &mut r);
-                run_timed(&mut out, &ctx, carries, tn, &tops).await;
+                if r.chance(1, 2) {
+                    let (tn, tops) = timed_random(&ctx, &mut r);
+                    run_timed(&mut out, &carries, tn, &tops, "").await;
+                } else {
+                    let path = *r.pick(&READ_PATHS);
+                    let ttl = *r.pick(&["before", "at", "after", "far"]);
+                    let between = *r.pick(&["none", "other-shards"]);
+                    let setter = if r.chance(1, 4) { "SETEX" } else { "SETPX" };
+                    let n = *r.pick(&[2usize, 4, 8]);
+                    let ops = ttl_pattern(&ctx, &mut r, n, path, ttl, between, setter);
+                    run_timed(&mut out, &carries, n, &ops, &format!("path={}:ttl={}:between={}", path, ttl, between)).await;
+                }
             }
         }
     });
-    out.finish("case = one command sequence (8..40 ops over 3..9 keys; corpus cases up to 80 ops) run on real ShardedActorState instances with 1 and N ∈ {2,3,4,8,16} shards and on the model: single-key string/list commands, MGET/MSET/DEL/EXISTS fan-out, KEYS/DBSIZE/FLUSH, fast/pooled/batch byte paths (incl. non-UTF-8 keys), two-key commands, MSETNX, SCAN, RANDOMKEY; KEYS / SCAN MATCH patterns of every shape (literal only for an existing / a missing key, `*`, `?`, classes, negated classes, ranges, degenerate ranges, unterminated `[`, empty classes, mixed) over keyspaces of 8..45 keys spread over the shards; plus timed streams (SET [PX], GET, EXISTS, DBSIZE, fast/pooled GET/SET with the simulated clock advanced between commands; non-trivial iff a TTL is set and time passes); distinct by shard count + op text; non-trivial iff its keys live on ≥ 2 shards and it contains a fan-out, byte-path or two-key command");
+    out.finish("case = one command sequence (8..40 ops over 3..9 keys; corpus cases up to 80 ops) run on real ShardedActorState instances with 1 and N ∈ {2,3,4,8,16} shards and on the model: single-key string/list commands, MGET/MSET/DEL/EXISTS fan-out, KEYS/DBSIZE/FLUSH, fast/pooled/batch byte paths (incl. non-UTF-8 keys), two-key commands, MSETNX, SCAN, RANDOMKEY; KEYS / SCAN MATCH patterns of every shape (literal only for an existing / a missing key, `*`, `?`, classes, negated classes, ranges, degenerate ranges, unterminated `[`, empty classes, mixed) over keyspaces of 8..45 keys spread over the shards; plus timed streams (SET [PX|EX], GET, EXISTS, DBSIZE, MGET/MSET, fast/pooled GET/SET, fast_batch_get/set_pipeline with the simulated clock advanced between commands: random streams, and the structured pattern `deadline; clock just before / at / just past / far past it; traffic for other shards only or none; read through one path` for every read path — distribution under timed:path=…; non-trivial iff a TTL is set, time passes and something is read); distinct by shard count + op text; non-trivial iff its keys live on ≥ 2 shards and it contains a fan-out, byte-path or two-key command");
 }
